@@ -833,6 +833,11 @@ impl Session {
         Ok((stream, synack_rx))
     }
 
+    /// Whether any stream is currently open on this session
+    pub async fn has_open_streams(&self) -> bool {
+        !self.streams.read().await.is_empty()
+    }
+
     /// Disable buffering (this will flush buffer on next write)
     pub fn disable_buffering(&self) {
         self.buffering
